@@ -57,6 +57,8 @@ func evalC08(src []byte, cfg string) (o Outcome) {
 	return
 }
 
+var reservedMemberNames = []string{"list", "class", "print", "function", "array", "echo", "if", "new", "static", "return", "use", "namespace", "foreach", "exit", "die", "isset", "empty", "global", "var", "public", "abstract", "final", "clone", "include", "require_once", "eval", "unset", "catch", "default", "and", "or", "xor", "instanceof", "yield", "fn", "callable", "trait", "insteadof", "__halt_compiler", "__CLASS__", "__LINE__", "self", "parent", "null", "true"}
+
 func loneCR(b []byte) bool {
 	for i, c := range b {
 		if c == '\r' && (i+1 == len(b) || b[i+1] != '\n') {
@@ -100,6 +102,24 @@ func oracleC08() *Result {
 			for _, k := range ks[:nvar] {
 				for _, tv := range withTriviaKinds(rng, s.Src, fam, k) {
 					add(s.Src, tv, v, "g-cfg")
+				}
+			}
+		}
+	}
+	// member names that spell a reserved word: after `->` the scanner is in a mode of its own, where PHP
+	// allows blanks and line terminators (not comments) before the name
+	for _, fam := range []int{7, 5} {
+		v := "7.4"
+		if fam == 5 {
+			v = "5.6"
+		}
+		for _, w := range reservedMemberNames {
+			for _, form := range []string{"<?php $a -> %s ;", "<?php $a -> %s ( ) ;", "<?php $a -> b -> %s -> c ;", "<?php echo $a -> %s [ 0 ] , 1 ;", "<?php $a -> %s = $b -> %s ;"} {
+				base := []byte(strings.ReplaceAll(form, "%s", w))
+				for _, mode := range []int{0, 1, 2} {
+					for _, tv := range withTriviaKinds(rng, base, fam, mode) {
+						add(base, tv, v, "reserved-member")
+					}
 				}
 			}
 		}
